@@ -65,6 +65,62 @@ def fnum(x):
     return repr(x)
 
 
+def spell(rng, x):
+    """one of the spellings the SVG number grammar allows for the (finite decimal) number x; the
+    value is x exactly"""
+    from decimal import Decimal
+    x = float(x)
+    mode = rng.choice(['plain', 'plain', 'nolead', 'plus', 'exp', 'exp', 'dot'])
+    if mode == 'plain' or x == 0:
+        return fnum(x)
+    def dec(v):                  # exact positional decimal of a Decimal
+        t = format(v, 'f')
+        if '.' in t:
+            t = t.rstrip('0').rstrip('.') if t.rstrip('0') != t or t.endswith('.') else t
+        return t or '0'
+    sign = '-' if x < 0 else ''
+    ax = Decimal(abs(x))
+    if mode == 'dot':
+        return sign + dec(ax) + '.' if ax == ax.to_integral_value() else fnum(x)
+    if mode == 'plus' and x > 0:
+        t = dec(ax)
+        if t.startswith('0.') and rng.random() < 0.5:
+            t = t[1:]
+        return '+' + t
+    if mode == 'exp':
+        k = rng.choice([-3, -2, -1, 1, 2, 3])
+        m = dec(ax.scaleb(-k))
+        if m.startswith('0.') and rng.random() < 0.6:
+            m = m[1:]                     # .125e2
+        if sign == '' and rng.random() < 0.2:
+            sign = '+'
+        return '%s%s%s%s%d' % (sign, m, rng.choice('eE'), rng.choice(['', '+']) if k > 0 else '', k)
+    t = dec(ax)                           # nolead
+    if t.startswith('0.'):
+        t = t[1:]
+    return sign + t
+
+
+def points_text(rng, pts, style):
+    """the points attribute: number spellings, comma / white space / sign as separators (SVG 1.1 9.7)"""
+    if style in ('comma-space', 'space', 'comma'):
+        a, b = {'comma-space': (',', ' '), 'space': (' ', ' '), 'comma': (',', ',')}[style]
+        return b.join('%s%s%s' % (fnum(x), a, fnum(y)) for x, y in pts)
+    out = ''
+    for i, (x, y) in enumerate(pts):
+        sx, sy = spell(rng, x), spell(rng, y)
+        if i:
+            seps = [' ', ',', ' , ', '  ', ', ']
+            if sx.startswith('-'):
+                seps += ['', '']
+            out += rng.choice(seps)
+        inner = [',', ' ', ' , ', ', ', ' ,']
+        if sy.startswith('-'):
+            inner += ['', '']
+        out += sx + rng.choice(inner) + sy
+    return out
+
+
 NICE_ROT = [  # (degrees, cos, sin): cos/sin rational
     (0.0, Fraction(1), Fraction(0)),
     (90.0, Fraction(0), Fraction(1)),
@@ -258,7 +314,7 @@ def gen_shape(rng, kind, sid):
         if rng.random() < 0.35 and n >= 3:
             pts[-1] = pts[0]
         a['points'] = pts
-        a['sep'] = rng.choice(['comma-space', 'space', 'comma'])
+        a['sep'] = rng.choice(['comma-space', 'space', 'comma', 'spelled', 'spelled', 'spelled'])
     elif kind == 'rect':
         if rng.random() < 0.85: a['x'] = dy(rng)
         if rng.random() < 0.85: a['y'] = dy(rng)
@@ -341,6 +397,91 @@ def gen_tree(rng, stream):
     raise RuntimeError('generator produced no shapes')
 
 
+def gen_tree_nearid(rng):
+    """transforms within numpy.allclose's default tolerances of the identity (rtol 1e-5, atol 1e-8),
+    single items and products, on coordinates where they matter: map-scale (~1e6) for the linear
+    part, nanometre-scale for the translations.  No arcs."""
+    big = rng.random() < 0.7
+    counter = {'s': 0, 'g': 0}
+    def coord():
+        if big:
+            return float(rng.randint(-2000000, 2000000)) + rng.choice([0.0, 0.5, 0.25])
+        return rng.randint(-2000, 2000) * 2.0 ** -37          # ~ +-1.5e-8, exact
+    def pt():
+        return (coord(), coord())
+    def near_items():
+        if big:
+            k = rng.choice(['scale1', 'scale2', 'matrix', 'rot', 'skew', 'prod', 'prod2'])
+            e = rng.choice([5e-6, 4e-6, -3e-6, 2.0 ** -18, 8e-6])
+            if k == 'scale1':
+                return [('scale', [1.0 + e])]
+            if k == 'scale2':
+                return [('scale', [1.0, 1.0 + e])]
+            if k == 'matrix':
+                return [('matrix', [1.0, 0.0, 0.0, 1.0 + e, 0.0, 0.0])]
+            if k == 'rot':
+                d = rng.choice([5e-7, -4e-7, 3e-7])
+                a = d * math.pi / 180.0
+                return [('rotate', {'deg': d, 'cos': Fraction(math.cos(a)), 'sin': Fraction(math.sin(a)), 'nice': False}, None)]
+            if k == 'skew':
+                d = rng.choice([5e-7, -4e-7])
+                return [(rng.choice(['skewX', 'skewY']), {'deg': d, 'tan': Fraction(math.tan(d * math.pi / 180.0)), 'nice': False})]
+            sc = rng.choice([2.0, 3.0, 0.5, 7.0, 1.5])
+            if k == 'prod':
+                return [('scale', [sc]), ('scale', [(1.0 / sc) * (1.0 + 1e-6)])]
+            return [('translate', [1000.0, -250.0]), ('scale', [1.0 + e]), ('translate', [-1000.0, 250.0])]
+        k = rng.choice(['t2', 't1', 'matrix'])
+        if k == 't2':
+            return [('translate', [5e-9, -3e-9])]
+        if k == 't1':
+            return [('translate', [rng.choice([5e-9, -7e-9, 9e-9])])]
+        return [('matrix', [1.0, 0.0, 0.0, 1.0, 4e-9, 6e-9])]
+    def shape():
+        kind = rng.choice(['path', 'line', 'polyline', 'polygon', 'rect'])
+        sid = counter['s']; counter['s'] += 1
+        a = {}
+        if kind == 'path':
+            p0, p1, p2, p3 = pt(), pt(), pt(), pt()
+            d = 'M%s,%s L%s %s C%s,%s %s,%s %s,%s' % tuple(fnum(v) for v in p0 + p1 + p2 + p3 + p0)
+            return {'type': 'shape', 'kind': kind, 'id': sid, 'attrs': {'d': d},
+                    'segs': [('L', p0, p1), ('C', p1, p2, p3, p0)], 'tf': []}
+        if kind == 'line':
+            (a['x1'], a['y1']), (a['x2'], a['y2']) = pt(), pt()
+            if (a['x1'], a['y1']) == (a['x2'], a['y2']):
+                a['x2'] += coord() or 1.0
+        elif kind in ('polyline', 'polygon'):
+            pts = []
+            while len(pts) < 3:
+                q = pt()
+                if not pts or q != pts[-1]:
+                    pts.append(q)
+            a['points'] = pts; a['sep'] = 'comma-space'
+        else:
+            a['x'], a['y'] = pt()
+            a['width'] = abs(coord()) or (1.0 if big else 2.0 ** -30)
+            a['height'] = abs(coord()) or (1.0 if big else 2.0 ** -30)
+            a['mode'] = 'plain'
+        return {'type': 'shape', 'kind': kind, 'id': sid, 'attrs': a, 'tf': []}
+    def group(depth):
+        g = {'type': 'g', 'tf': near_items() if (depth > 1 and rng.random() < 0.6) else [], 'kids': [], 'gid': counter['g']}
+        counter['g'] += 1
+        for _ in range(rng.randint(1, 3)):
+            if depth < 3 and rng.random() < 0.4:
+                g['kids'].append(group(depth + 1))
+            else:
+                sh = shape()
+                if rng.random() < 0.6:
+                    sh['tf'] = near_items()
+                g['kids'].append(sh)
+        return g
+    root = group(1)
+    if not any(True for _ in iter_shapes(root)):
+        root['kids'].append(shape())
+    if not any(ch for _, _, ch in iter_shapes(root) if any(ch)):
+        sh = shape(); sh['tf'] = near_items(); root['kids'].append(sh)
+    return root, {'allow_line': True}
+
+
 def iter_groups(n, pos=()):
     """(group, position)"""
     if n['type'] == 'g':
@@ -376,13 +517,7 @@ def shape_xml(rng, s):
     if k == 'path':
         at.append('d="%s"' % a['d'])
     elif k in ('polyline', 'polygon'):
-        if a['sep'] == 'comma-space':
-            txt = ' '.join('%s,%s' % (fnum(x), fnum(y)) for x, y in a['points'])
-        elif a['sep'] == 'space':
-            txt = ' '.join('%s %s' % (fnum(x), fnum(y)) for x, y in a['points'])
-        else:
-            txt = ','.join('%s,%s' % (fnum(x), fnum(y)) for x, y in a['points'])
-        at.append('points="%s"' % txt)
+        at.append('points="%s"' % points_text(rng, a['points'], a['sep']))
     else:
         for key in ('cx', 'cy', 'r', 'rx', 'ry', 'x', 'y', 'width', 'height', 'x1', 'y1', 'x2', 'y2'):
             if key in a:
@@ -498,6 +633,7 @@ def observe(path, root):
     o['document'] = guarded(doc_all)
 
     o['groups'] = []
+    o['groups_nr'] = []
     for g, pos in iter_groups(root):
         def from_g(pos=pos):
             d = Document(path)
@@ -507,6 +643,14 @@ def observe(path, root):
             return [(eid(p.element.get('id')), path_segs(p), np.array(p.transform).tolist())
                     for p in d.paths_from_group(el)]
         o['groups'].append((pos, guarded(from_g)))
+        def from_g_nr(pos=pos):
+            d = Document(path)
+            el = d.tree.getroot()
+            for i in pos:
+                el = list(el)[i]
+            return [(eid(p.element.get('id')), path_segs(p), np.array(p.transform).tolist())
+                    for p in d.paths_from_group(el, recursive=False)]
+        o['groups_nr'].append((pos, guarded(from_g_nr)))
 
     def s2p():
         ps, at = svg2paths(path)
@@ -564,7 +708,7 @@ def scale_of(o, root):
     for k in ('document', 'svg2paths', 'sax_parse', 'sax_flat'):
         if 'ok' in o[k]:
             upd(o[k]['ok'])
-    for _, r in o['groups']:
+    for _, r in o['groups'] + o['groups_nr']:
         if 'ok' in r:
             upd(r['ok'])
     for s, M, _ in iter_shapes(root):
@@ -739,14 +883,14 @@ def run(rep, tier, seed, replay=None):
             if replay:
                 r = json.load(open(replay))['replay']
                 rng2 = common.mkrng(r['tree_seed'], 'C17-tree')
-                root, ginfo = gen_tree(rng2, r['stream'])
+                root, ginfo = gen_tree_nearid(rng2) if r['stream'] == 'nearid' else gen_tree(rng2, r['stream'])
                 todo.append((r['stream'], r['tree_seed'], root, ginfo, rng2))
             else:
                 for i in range(n_trees):
-                    stream = 'arcs' if i % 7 == 6 else 'main'
+                    stream = 'arcs' if i % 7 == 6 else ('nearid' if i % 7 == 3 else 'main')
                     tseed = '%s/%d' % (seed, i)
                     rng2 = common.mkrng(tseed, 'C17-tree')
-                    root, ginfo = gen_tree(rng2, stream)
+                    root, ginfo = gen_tree_nearid(rng2) if stream == 'nearid' else gen_tree(rng2, stream)
                     todo.append((stream, tseed, root, ginfo, rng2))
             keycount = {}
             _viol = rep.violation
@@ -788,6 +932,8 @@ def run(rep, tier, seed, replay=None):
                 cases.append((ti, 'document', None, 'ODocument %s' % oq(o['document'], entries_coq, 'obs_entry')))
                 for pos, r in o['groups']:
                     cases.append((ti, 'group', pos, 'OGroup %s %s' % (pos_coq(pos), oq(r, entries_coq, 'obs_entry'))))
+                for pos, r in o['groups_nr']:
+                    cases.append((ti, 'group-nr', pos, 'OGroupNR %s %s' % (pos_coq(pos), oq(r, entries_coq, 'obs_entry'))))
                 cases.append((ti, 'svg2paths', None, 'OSvg2paths %s' % oq(o['svg2paths'], plain_coq, 'obs_plain')))
                 cases.append((ti, 'sax', None, 'OSax %s %s' % (oq(o['sax_parse'], saxp_coq, '(nat * list qseg * option qmat)'),
                                                                oq(o['sax_flat'], plain_coq, 'obs_plain'))))
@@ -823,6 +969,9 @@ def run(rep, tier, seed, replay=None):
                 o, root = T['obs'], T['root']
                 base = {'kind': 'correspondence', 'route': route, 'stream': T['stream'], 'tree_seed': T['seed'],
                         'svg': T['svg'], 'how': './check C17 --replay <this file>'}
+                nonrec = route == 'group-nr'
+                if nonrec:
+                    route = 'group'
                 if route in ('document', 'group', 'svg2paths', 'sax'):
                     tie_bits = code % 4
                     m = code // 4
@@ -834,8 +983,15 @@ def run(rep, tier, seed, replay=None):
                 else:
                     tie = tie_bits      # sax: bit0 parse tie, bit1 flatten tie
                 if route == 'group':
-                    r = dict(o['groups'])[pos] if False else [x for p, x in o['groups'] if p == pos][0]
+                    r = [x for p, x in (o['groups_nr'] if nonrec else o['groups']) if p == pos][0]
                     ref_shapes = shapes_under(root, pos)
+                    if nonrec:       # the reference: only the shapes that are children of the group
+                        tgt = root
+                        for i in pos:
+                            tgt = tgt['kids'][i]
+                        direct = set(id(c) for c in tgt['kids'] if c['type'] == 'shape')
+                        ref_shapes = [x for x in ref_shapes if id(x[0]) in direct]
+                        base['recursive'] = False
                 elif route == 'document':
                     r, ref_shapes = o['document'], T['shapes']
                 elif route == 'svg2paths':
